@@ -457,8 +457,14 @@ def judgeLine (a : Acc) (l : String) : Except Verdict Acc := do
       pure { (a.add br) with nt := a.nt || (hasReq && hasSend) }
   | ["udftask", when_, stray] =>
     match obs with
-    | ["X", how] => throw (.specfail (if how == "hang" then "terminates" else "process-survives")
-        s!"udftask {when_} {stray}: {how} (a task with a snapshot interval whose UDF sent one well-formed response nobody asked for)")
+    | ["X", how] =>
+      let what := if when_.startsWith "slow" then "a task with a snapshot interval whose UDF takes longer to start than the interval"
+        else if when_.startsWith "stop" then "a task stopped while its UDF is still starting"
+        else "a task with a snapshot interval whose UDF sent one well-formed response nobody asked for"
+      if how == "stoppanic" then
+        throw (.specfail "peer-error-at-most" s!"udftask {when_} {stray}: the goroutine that stopped the task panicked ({what})")
+      throw (.specfail (if how == "hang" then "terminates" else "process-survives") s!"udftask {when_} {stray}: {how} ({what})")
+    | ["stopped"] => pure { (a.add [s!"udftask.{when_}"]) with nt := true }
     | [cn, te, by_, snap] =>
       let some cn := cn.toNat? | throw (.badop l)
       let some te := te.toNat? | throw (.badop l)
